@@ -590,6 +590,7 @@ FAIL_KINDS = [
     ('possible arithmetic underflow/overflow', 'overflow'),
     ('possible division by zero', 'div0'),
     ('decreases not satisfied', 'decreases'),
+    ('could not prove termination', 'decreases'),
     ('possible bit shift underflow/overflow', 'overflow'),
     ('unreachable', 'unreachable'),
     ('recommendation not met', None),
